@@ -246,3 +246,76 @@ def read_ranges(draw, model, count):
             a, e = e, a
         out.append([a, e])
     return out
+
+
+ARGFORMS = ["plain", "plain", "plain", "strided", "strided", "list", "int64", "swapped", "onedim", "defnext", "npidx"]
+
+
+def draw_call_forms(draw, case):
+    """How the Python writer is called (array_like arguments: strided views, lists, int64, other byte order, 1-D data;
+    next_sample left at its default / given as a numpy integer) and how the session ends.  No effect on the C path."""
+    if case.get("path", "py") != "py":
+        return case
+    for op in case["ops"]:
+        f = draw(st.sampled_from(ARGFORMS))
+        if f != "plain":
+            op["argform"] = f
+    case["end"] = draw(st.sampled_from(["close", "close", "with", "del"]))
+    if draw(st.integers(0, 2)) == 0:
+        case["sibling"] = draw_sibling(draw, case["cfg"])
+    return case
+
+
+def draw_sibling(draw, cfg):
+    """A second channel recorded by the SAME process at the same time (as multi-channel recorders do): another writer
+    object with a different file cadence / rate / element type whose calls are interleaved with the primary writer's.
+    Writer objects share nothing, so the primary channel must come out exactly as it does alone."""
+    c2 = dict(cfg)
+    c2["salt"] = (cfg["salt"] + 7919) % (1 << 32)
+    c2["uuid"] = "sibling"
+    n, d = cfg["n"], cfg["d"]
+    if draw(st.integers(0, 1)):
+        n, d = draw(st.sampled_from([(n * 2, d) if n * 2 < (1 << 32) else (n, d), (n, d * 3) if n >= 3 * d else (n, d), (n, d)]))
+    cands = [F for F in CADENCES if F != cfg["F"] and F * n >= 1000 * d and _spf(n, d, F) <= 4096]
+    F = draw(st.sampled_from(cands)) if cands else cfg["F"]
+    S_ = F if F % 1000 else F // 1000
+    if (S_ * 1000) % F != 0:
+        S_ = F
+    c2.update({"n": n, "d": d, "F": F, "S": max(1, S_) * draw(st.sampled_from([1, 2, 10]))})
+    kind = draw(st.sampled_from(["i", "f", "u"]))
+    c2.update({"kind": kind, "size": draw(st.sampled_from([4, 8] if kind == "f" else [1, 2, 4, 8])), "order": draw(st.sampled_from(["<", ">"])),
+               "cplx": draw(st.integers(0, 1)), "form": "struct", "nsub": draw(st.sampled_from([1, 2])),
+               "cont": draw(st.integers(0, 1)), "comp": 0, "checksum": 0})
+    if c2["size"] == 1:
+        c2["order"] = "<"
+    # the sibling records the same time span as the primary: it starts at the sample nearest the primary's start time and,
+    # after every call of the primary, is written up to the time the primary has reached (so both writers keep working
+    # in file periods that begin at the same instants whenever one cadence divides the other)
+    n2, d2 = c2["n"], c2["d"]
+    c2["start"] = rfmodel.ceil_div(cfg["start"] * cfg["d"] * n2, cfg["n"] * d2)
+    return {"cfg": c2}
+
+
+def sibling_ops(cfg, ops, sib):
+    """[pre-op, op after primary call 0, op after primary call 1, ...] (None = nothing to write) - see draw_sibling."""
+    c2 = sib["cfg"]
+    n2, d2 = c2["n"], c2["d"]
+    out = [{"op": "w", "idx": 0, "len": 1}]
+    nxt2 = 1
+    m = rfmodel.Model(cfg)
+    for op in ops:
+        if m.why_invalid(op) is None:
+            m.apply(op)
+        else:
+            m.skip_call()
+        end_abs = cfg["start"] + m.next_avail  # the primary has reached this index
+        target = rfmodel.ceil_div(end_abs * cfg["d"] * n2, cfg["n"] * d2) - c2["start"]
+        ln = target - nxt2
+        if ln <= 0:
+            out.append(None)
+            continue
+        if ln > 20000:
+            nxt2, ln = target - 20000, 20000
+        out.append({"op": "w", "idx": nxt2, "len": ln})
+        nxt2 += ln
+    return out
